@@ -48,7 +48,8 @@ REPERTOIRES = {
     "wide": ("Скважина №7 深度", "м", "глубина 测井", ["utf-8-sig", "utf-8", "utf-16", "utf-16-le", "utf-16-be"]),
 }
 EOLS = {"LF": "\n", "CRLF": "\r\n", "CR": "\r"}
-READ_OPTS = [{}, {"engine": "normal"}, {"mnemonic_case": "preserve"}, {"null_policy": "none"}, {"ignore_header_errors": True}]
+READ_OPTS = [{}, {"engine": "normal"}, {"mnemonic_case": "preserve"}, {"null_policy": "none"}, {"ignore_header_errors": True},
+             {"null_policy": "all"}, {"read_policy": ()}, {"null_policy": "aggressive", "engine": "normal"}, {"dtypes": "auto", "mnemonic_case": "lower"}]
 
 
 def make_text(rep, seed):
@@ -152,6 +153,16 @@ WRAPPED = ("~V\nVERS. 1.2 : v\nWRAP. YES : w\n~W\nSTRT.M 1.0 : s\nSTOP.M 2.0 : s
            "~C\nDEPT.M : d\nA.U : a\nB.U : b\nC.U : c\n~A\n1.0\n 10.5 20.5\n 30.5\n2.0\n 11.5 -999.25\n 31.5\n")
 
 
+COMMA_DLM = ("~Version\nVERS. 2.0 : v\nWRAP. NO : w\nDLM. COMMA : d\n~Well\nSTRT.M 1.0 : s\nSTOP.M 2.0 : s\nSTEP.M 1.0 : s\nNULL. -999.25 : n\n"
+             "~Curves\nDEPT.M : d\nA.U : a\nB.U : b\n~ASCII\n1.0,10.5,-999.25\n2.0,20.5,30.25\n")
+TAB_DLM = COMMA_DLM.replace("COMMA", "TAB").replace(",", "\t")
+DECIMAL_COMMA = ("~Version\nVERS. 2.0 : v\nWRAP. NO : w\n~Well\nSTRT.M 100,5 : s\nSTOP.M 101,5 : s\nSTEP.M 1,0 : s\nNULL. -999,25 : n\n"
+                 "~Curves\nDEPT.M : d\nA.U : a\n~ASCII\n100,5  46,50\n101,5  -999,25\n")
+RUNON = ("~Version\nVERS. 2.0 : v\nWRAP. NO : w\n~Well\nNULL. -999.25 : n\n~Curves\nDEPT.M : d\nA.U : a\nB.U : b\n~ASCII\n"
+         "100.5 -12.5-13.5\n101.5 -14.5-15.5\n")
+CUSTOM_SECTION = DUPS.replace("~Parameter", "~Tools used\nTOOL.mm 216 : bit\n~Parameter")
+
+
 def module_state(lasio):
     d = lasio.las.defaults
     parts = [repr(d.ORDER_DEFINITIONS), repr(d.READ_POLICIES), repr(d.NULL_POLICIES), repr(d.DEPTH_UNITS), repr(d.HYPHEN_SUBS),
@@ -170,9 +181,9 @@ def run_history(case, ctx):
     import random
     lasio = ctx.lasio
     rng = random.Random(case["seed"])
-    pool = [MINIMAL, NO_WELL, DUPS, WRAPPED, make_text("latin", 3), make_text("wide", 5)]
+    pool = [MINIMAL, NO_WELL, DUPS, WRAPPED, make_text("latin", 3), make_text("wide", 5), COMMA_DLM, TAB_DLM, DECIMAL_COMMA, RUNON, CUSTOM_SECTION]
     rng.shuffle(pool)
-    pool = pool[:rng.randint(3, 6)]
+    pool = pool[:rng.randint(3, 7)]
     refs = {}                     # (text index, options index) -> snapshot of the first observation
     objs = []                     # [las, snapshot or None (None = mutated by the history)]
     state0 = module_state(lasio)
@@ -205,6 +216,8 @@ def run_history(case, ctx):
             else:
                 k = rng.randrange(len(objs))
                 las = objs[k][0]
+                if op in ("write", "mutate_header", "edit_curve", "set_data"):
+                    objs[k][1] = None        # marked before the operation: it may fail half-way
                 if op == "write":
                     las.write(io.StringIO(), version=rng.choice([1.2, 2, None]), wrap=rng.choice([True, False, None]))
                     objs[k][1] = None
